@@ -88,8 +88,10 @@ CHECKS = {
              "every execution against the property-level trace spec (acknowledged appends visible to survivors and fresh "
              "readers, torn record all-or-nothing, readers never fail).",
         note="Trusted: TLC, the shim's file-system semantics (atomic create/rename, chunked append), process death = no "
-             "further step. Grace period assumed longer than live critical sections. SQLite statement-boundary crashes "
-             "are not yet covered by this check. Known finding K4 (takeover race) is checked-modulo.",
+             "further step. Grace period assumed longer than live critical sections. SQLite: a connection is killed at "
+             "every SQL statement / commit boundary of every storage call (connection closed as the OS would), a survivor "
+             "goes on, and LinStorage requires the cut call to be wholly applied or wholly absent. Known finding K4 "
+             "(takeover race) is checked-modulo.",
         technique="TLA+ syscall-level spec model-checked with TLC; TLC crash behaviours replayed into the real code over "
                   "a syscall shim; recorded executions validated by TLC (trace validation)",
         ref="DESIGN.md section 4 C05, section 3.3",
